@@ -9,6 +9,7 @@ package zzverifrt
 import (
 	"encoding/json"
 	"fmt"
+	"hash/crc32"
 	"os"
 	"strconv"
 	"strings"
@@ -173,3 +174,9 @@ func BytesEq(a, b []byte) bool { return string(a) == string(b) }
 
 // ExpectPanic declares that a panic of the code under test from here on is acceptable.
 func ExpectPanic() {}
+
+var castagnoli = crc32.MakeTable(crc32.Castagnoli)
+
+// CRC32C is the CRC-32C update function; under the engine it is the same uninterpreted
+// function that stands for hash/crc32 and klauspost/crc32 Update.
+func CRC32C(prev uint32, data []byte) uint32 { return crc32.Update(prev, castagnoli, data) }
